@@ -79,6 +79,18 @@ def streams(seed, tier):
     cases.append(case(0, 11, 3, [state(float=[fbits(0.5)]), [], S("BOOLVECTOR.RAND"), 0, [], 0], tape(rng)))
     out.append(Stream("BOOLVECTOR.RAND", "rand", "rand.check", cases,
                       "random_bool_vector and BOOLVECTOR.RAND: size {0,1,2,3,7,64,200,-1,i32::MIN} x sparsity {0,.01,.25,.5,.51,.75,1,-0.1,1.1,NaN,-0,+-inf,.004,.996,.5000001}: length, #non-default = documented rounding, invalid -> nothing; every position seen non-default (N draws, false-alarm probability < 1e-12); missing operands", project=project))
+    # ---- the count on the whole percent grid, at sizes where `share * size as f32` is not what exact arithmetic gives ----
+    cases = []
+    big_sizes = [100, 150, 300, 450, 600, 750, 900, 1050, 1500, 3000, 4950] if tier != "quick" else [150, 300, 750, 1050, 3000]
+    for size in big_sizes:
+        for pc in range(0, 101):
+            cases.append(case(rng.randrange(2), 4, 2, [size, fbits(pc / 100.0), 0], tape(rng)))
+    for _ in range(300 if tier == "quick" else 3000):
+        size = rng.choice([rng.randrange(100, 5000), 150 * rng.randrange(1, 40), 50 * rng.randrange(1, 100)])
+        cases.append(case(rng.randrange(2), 4, 2, [size, fbits(rng.randrange(0, 101) / 100.0), 0], tape(rng)))
+    out.append(Stream("BOOLVECTOR.RAND-count-grid", "rand", "rand.check", cases,
+                      "random_bool_vector at sizes %s and random sizes up to 5000 (multiples of 50 / 150 preferred) x every sparsity k/100: "
+                      "the number of non-default bits equals the documented f32 computation (where it differs from exact integer arithmetic, e.g. size 150, 42%%)" % big_sizes, project=project))
     # ---- INTVECTOR ----
     cases = []
     for size in SIZES + [-1, MIN32]:
